@@ -41,25 +41,26 @@ def run(ctx):
                 'single-kernel cases; adaptive solver compared with the same system integrated by the harness')
     ctx.assumptions += ['kernels chosen so that order/delay is an integer: Euler iterates are integers and compared with ==',
                         'adaptive clause: tolerance 1e-6 against a dense reference integration of the explicit linear chain']
-    ks = '1..11'
+    ks = '1..13'
     expr = f'GammaCases({2 if tier == "quick" else 3}, {ks}, {{<<1, 1, 2, 2>>, <<1, 2, 3, 3>>}}, 6) \\cup ApproxCases(6)' \
            + ' \\cup {c \\in GammaCases(3, {1, 3}, {<<1, 1, 2, 2>>}, 6) : Len(c.m.edges) = 3 /\\ c.cfg.vec}'
-    c = tlc.cfg(constants=dict(Dev=set()), invariants=['EachEdgeOwnKernel', 'MeanDelayIsD', 'Integral', 'Export'])
+    c = tlc.cfg(constants=dict(Dev=set()), invariants=['EachEdgeOwnKernel', 'MeanDelayIsD', 'Integral', 'DiscreteKeepsItsDelay', 'Export'])
     r = tlc.run_tlc('Gamma', c, workers=16, defs=dict(Cases=expr), timeout=3000)
     ctx.add_tlc('design', r, 'augmented ODE iterates; kernel invariants')
     if not r['ok']:
         ctx.spec_violation('design', r)
     vac = {}
-    for d in ('OrderFloor', 'RateOfFirstSlot'):
-        cv = tlc.cfg(constants=dict(Dev={d}), invariants=['EachEdgeOwnKernel'])
-        rv = tlc.run_tlc('Gamma', cv, workers=8, defs=dict(Cases='GammaCases(2, 1..11, {<<1, 1, 2, 2>>}, 2)'))
+    for d in ('OrderFloor', 'RateOfFirstSlot', 'OneBranchPerSourceVariable'):
+        cv = tlc.cfg(constants=dict(Dev={d}), invariants=['EachEdgeOwnKernel', 'DiscreteKeepsItsDelay'])
+        rv = tlc.run_tlc('Gamma', cv, workers=8, defs=dict(Cases='GammaCases(2, 1..13, {<<1, 1, 2, 2>>}, 2)'))
         ctx.add_tlc(f'vacuity:{d}', rv, 'must violate'); vac[d] = rv['violated']
         if rv['violated'] is None:
             ctx.violation(dict(kind='spec', what=f'deviation {d} not detected'))
     ctx.notes['deviations_detected_by'] = vac
     cases = r['exports'].get('CASE', [])
     rng = random.Random(ctx.seed)
-    delayed = [c for c in cases if any(e['d'] for e in c['m']['edges'])]
+    delayed = [c for c in cases if any(e['d'] for e in c['m']['edges']) and not c.get('d59') and not c.get('d06')]
+    ctx.notes['excluded_d59_d06'] = len([c for c in cases if c.get('d59') or c.get('d06')])
     rng.shuffle(delayed)
     three = [c for c in delayed if len(c['m']['edges']) == 3]
     sel = [c for c in delayed if len(c['m']['edges']) < 3][:800 if tier == 'quick' else 20000] + three[:250 if tier == 'quick' else 20000]
@@ -74,14 +75,14 @@ def run(ctx):
     # Connectivity form: all edges between one pair of populations share one kernel
     for c in sel[:300]:
         kern = {(e['d'], tuple(e['s2'])) for e in c['m']['edges']}
-        if len(kern) == 1 and c['m']['kind'] == [1, 1, 2, 2] and c['cfg']['vec'] and not c['cfg']['approx']:
+        if len(kern) == 1 and c['m']['kind'] == [1, 1, 2, 2] and c['cfg']['vec'] and not c['cfg']['approx'] and not c.get('discrete'):
             jobs.append(dict(case=c, variant=VARIANTS[0], form='pop'))
     # adaptive solver: same augmented system, tolerance against the exact Euler-free reference computed by the harness
     ajobs = [dict(case=c, variant=VARIANTS[0], solver='scipy') for c in sel[:60 if tier == 'quick' else 600]
-             if not c.get('d36') and not c.get('d50')]
+             if not c.get('d36') and not c.get('d50') and not c.get('discrete')]
     for c in sel[:400]:          # Connectivity form under the adaptive solver, delays below one time unit
         kern = {(e['d'], tuple(e['s2'])) for e in c['m']['edges']}
-        if len(kern) == 1 and c['m']['kind'] == [1, 1, 2, 2] and c['cfg']['vec'] and not c['cfg']['approx'] and len(ajobs) < 90:
+        if len(kern) == 1 and c['m']['kind'] == [1, 1, 2, 2] and c['cfg']['vec'] and not c['cfg']['approx'] and len(ajobs) < 90 and not c.get('discrete'):
             ajobs.append(dict(case=c, variant=VARIANTS[2], solver='scipy', form='pop'))
     for j, o in zip(ajobs, run_cases(job, ajobs, timeout=600)):
         ctx.replayed += 1
@@ -106,7 +107,48 @@ def run(ctx):
             res = classify(ctx, j, o, exp)
         verd[f"{j.get('form', 'nodes')}:{res}"] = verd.get(f"{j.get('form', 'nodes')}:{res}", 0) + 1
     ctx.notes['verdicts'] = verd
+    pinned_d59(ctx)
     ctx.sample(dict(edges=sel[0]['m']['edges'], orders=sel[0]['orders'], rates=sel[0]['rates'], rows=sel[0]['rows'][:4]))
+
+
+def _net(kinds, el):
+    K = {1: (2, [1, 1]), 12: (2, [0, 1])}
+    W = [2, 6, -4]
+    return dict(n=4, c=[2, 0, 0, 0], a=[0, 1, 0, -1], x0=[0, 1, 0, 7], kind=kinds,
+                edges=[dict(s=s, t=t, w=W[q], d=K[k][0], s2=K[k][1]) for q, (s, t, k) in enumerate(el)])
+
+
+# D59: one source variable feeds a distributed-delay edge and a plain discrete-delay edge (class kept out of the enumeration)
+PINNED_D59 = [
+    # no vectorisation: the discrete delay is dropped (the edge delivers the current source value): rows of x4
+    dict(kinds=[1, 1, 2, 2], el=[(1, 3, 1), (1, 4, 12)], vec=False, recorded=dict(col=3, rows=[7.0, 0.0, 12.0, 24.0, 36.0, 48.0]),
+         correct=dict(col=3, rows=[7.0, 0.0, 0.0, 0.0, 12.0, 24.0])),
+    # vectorisation, distributed-delay edge first: the discrete-delay edge delivers nothing at all
+    dict(kinds=[1, 1, 2, 2], el=[(1, 3, 1), (1, 4, 12)], vec=True, recorded=dict(col=3, rows=[7.0, 0.0, 0.0, 0.0, 0.0, 0.0]),
+         correct=dict(col=3, rows=[7.0, 0.0, 0.0, 0.0, 12.0, 24.0])),
+    # vectorisation, discrete-delay edge first: KeyError('spread')
+    dict(kinds=[1, 1, 2, 2], el=[(1, 3, 12), (1, 4, 1)], vec=True, recorded=dict(exc='KeyError'), correct=None),
+]
+
+
+def pinned_d59(ctx):
+    if not ctx.open_finding('D59'):
+        return
+    jobs = [dict(case=dict(m=_net(p['kinds'], p['el']), cfg=dict(steps=6, vec=p['vec'], approx=0, form='nodes')), variant=VARIANTS[0])
+            for p in PINNED_D59]
+    for p, o in zip(PINNED_D59, run_cases(job, jobs, timeout=300)):
+        ctx.case(key=['pinned-D59', p['el'], p['vec']])
+        col = (p['recorded'].get('col'), p['correct'] and p['correct'].get('col'))
+        got = [r[p['recorded']['col']] for r in o['rows']] if 'rows' in o and 'col' in p['recorded'] else None
+        if ('exc' in p['recorded'] and o.get('exc') == p['recorded']['exc']) or (got is not None and got == p['recorded']['rows']):
+            ctx.known_hit('D59', dict(case=dict(edges=p['el'], vec=p['vec']), observed=got or o.get('exc')))
+        elif 'rows' in o and p['correct'] and [r[p['correct']['col']] for r in o['rows']] == p['correct']['rows']:
+            ctx.notes.setdefault('pinned_no_longer_failing', []).append(['D59', p['el'], p['vec']])
+        elif 'rows' in o and p['correct'] is None:
+            ctx.notes.setdefault('pinned_no_longer_failing', []).append(['D59', p['el'], p['vec']])
+        else:
+            ctx.violation(dict(kind='conformance', what='pinned reproducer of D59 fails differently from the recorded finding',
+                               case=dict(edges=p['el'], vec=p['vec']), observed=o, recorded=p['recorded']))
 
 
 def reference_solution(case):
